@@ -130,6 +130,30 @@ def StrongTag (e : Bytes) : Prop := hasPrefix vWeakPrefix e = false ∧ ∃ b, e
 
 end CaddyModel.C15
 
+/-! ### what a real HTTP server delivers: no body for HEAD and for statuses that forbid one -/
+namespace CaddyModel.C15
+
+/-- net/http `bodyAllowedForStatus`: 1xx (that includes the final 101), 204 and 304 carry no body; the server
+    refuses the handler's writes (`ErrBodyNotAllowed`) -/
+def bodyAllowed (s : Nat) : Bool := !(is1xx s || s == 204 || s == 304)
+
+section
+variable {α : Type}
+
+/-- the final status forbids a body (an uncommitted response is sent as 200) -/
+def noBodyStatus (st : St α) : Bool :=
+  match st.sent with
+  | some (s, _) => !bodyAllowed s
+  | none => false
+
+/-- what the client of a real server obtains: nothing for a HEAD request or a body-less status, otherwise what
+    it decodes according to Content-Encoding -/
+def delivered (head : Bool) (coding : Option Bytes) (st : St α) : Option (List α) :=
+  if head || noBodyStatus st then some [] else clientBody coding st
+
+end
+end CaddyModel.C15
+
 /-! ### Accept-Encoding as RFC 9110 writes it (§12.5.3, §12.4.2, §5.6.1) -/
 namespace CaddyModel.C15
 
